@@ -365,6 +365,38 @@ def beta_reduce_local_defs(fn: ast.FunctionDef) -> bool:
     return changed
 
 
+def hoist_helper_arguments(fn: ast.FunctionDef) -> bool:
+    """`r = m(a, s, _fix(s, p), **kw)` at the top level of fn, with `_fix` a private helper that is handed the parameter
+    `p`, `p` not read anywhere after this statement and the arguments before it plain names  ->  `p = _fix(s, p)` followed
+    by `r = m(a, s, p, **kw)`: the value is computed at the same point (the earlier arguments have no effects) and only
+    this call sees it.  The multi-return inliner then writes the helper out."""
+    params = {a.arg for a in fn.args.args}
+    changed = False
+    for i, st in enumerate(list(fn.body)):
+        val = getattr(st, "value", None) if isinstance(st, (ast.Assign, ast.AnnAssign, ast.Expr, ast.Return)) else None
+        if not isinstance(val, ast.Call):
+            continue
+        for j, a in enumerate(val.args):
+            if not (isinstance(a, ast.Call) and isinstance(a.func, ast.Name) and a.func.id.startswith("_") and not a.keywords and all(isinstance(x, ast.Name) for x in a.args)):
+                continue
+            ps = [x.id for x in a.args if x.id in params]
+            if len(ps) < 1 or not all(isinstance(x, (ast.Name, ast.Constant)) for x in val.args[:j]):
+                continue
+            p_ = ps[-1]
+            later = [y for s2 in fn.body[fn.body.index(st) + 1 :] for y in ast.walk(s2) if isinstance(y, ast.Name) and y.id == p_]
+            here = [y for y in ast.walk(st) if isinstance(y, ast.Name) and y.id == p_ and not any(y is z for z in ast.walk(a))]
+            if later or here:
+                continue
+            new = ast.copy_location(ast.Assign(targets=[ast.Name(id=p_, ctx=ast.Store())], value=a), st)
+            val.args[j] = ast.copy_location(ast.Name(id=p_, ctx=ast.Load()), a)
+            fn.body.insert(fn.body.index(st), new)
+            changed = True
+            break
+    if changed:
+        ast.fix_missing_locations(fn)
+    return changed
+
+
 def collapse_inlining_aliases(fn: ast.FunctionDef) -> bool:
     """`addresses = addresses__i` left behind by inlining (the callee's local was renamed because the caller uses the same
     name for the result): when both names are bound exactly once, the caller's name stands for the callee's list - the
@@ -1473,6 +1505,7 @@ def normalised(ctx: Ctx, f: Func, steps: str = "delegation,tailcalls,calls,unrol
         if "gencalls" in want:
             round_changed |= inline_drained_generators(ctx, f, fn)
         if "multiret" in want:
+            round_changed |= hoist_helper_arguments(fn)
             round_changed |= inline_multi_return_calls(ctx, f, fn)
             round_changed |= split_tuple_assignments(fn)
         if "unroll" in want:
